@@ -3,6 +3,7 @@ package rules
 import (
 	"fmt"
 	"go/token"
+	"go/types"
 	"sort"
 	"strings"
 
@@ -265,6 +266,16 @@ func chanName(c *Ctx, v ssa.Value) string {
 
 // chanGoverned: a timer channel, or a channel that a producer goroutine closes in a defer.
 func chanGoverned(c *Ctx, v ssa.Value, f *ssa.Function) (bool, string) {
+	// timer.C / ticker.C: the channel field of a time.Timer or time.Ticker
+	if ld, ok := v.(*ssa.UnOp); ok {
+		if fa, ok := ld.X.(*ssa.FieldAddr); ok && core.FieldName(fa) == "C" {
+			if pt, ok := fa.X.Type().Underlying().(*types.Pointer); ok {
+				if ts := pt.Elem().String(); ts == "time.Timer" || ts == "time.Ticker" {
+					return true, "timer channel " + ts + ".C"
+				}
+			}
+		}
+	}
 	d := c.P.Def(v)
 	switch x := d.(type) {
 	case *ssa.Call:
@@ -411,7 +422,7 @@ func blockingCall(c *Ctx, f *ssa.Function, call *ssa.Call) (kind string, ok bool
 			}
 		}
 		return "http-body-read", okr, "response body read: " + w
-	case strings.HasPrefix(name, "backoff.Retry"):
+	case name == "backoff.Retry" || strings.HasPrefix(name, "backoff.Retry["): // not backoff.RetryAfter, which only builds an error value
 		okc, w := ctxDeadline(c, cc.Args[0], f, 0)
 		return "retry", okc, w
 	case name == "dyn" && len(cc.Args) >= 1 && strings.HasSuffix(cc.Args[0].Type().String(), "context.Context"):
